@@ -12,6 +12,9 @@
 (* letter, sfx in "", "I", "L", "S", "D", "$"):                                 *)
 (*   [k |-> "let", b, c, sfx, id]     name = <value derived from id>            *)
 (*   [k |-> "print", b, c, sfx]                                                 *)
+(*   [k |-> "parg", b, c, sfx]        the name as an argument of a call to a    *)
+(*                                     SUB that prints its parameter: what a name  *)
+(*                                     denotes does not depend on where it is used *)
 (*   [k |-> "dimas", b, c, t, shared]  DIM [SHARED] name AS type                *)
 (*   [k |-> "dimsfx", b, c, sfx, shared] DIM [SHARED] name<sfx>                 *)
 (*   [k |-> "const", b, c, sfx, id]                                             *)
@@ -93,7 +96,7 @@ UsedAny(d, b) == \E t \in Types : <<b, t>> \in d.seen
 IsFn(st, b) == b \in DOMAIN st.fn
 FnStmt(st, sc, s) ==
   LET f == st.fn[s.b] IN
-  IF s.k = "print" THEN
+  IF s.k \in {"print", "parg"} THEN
        (IF s.sfx = f.t THEN [st EXCEPT !.out = @ \o Show(ValueFor(f.t, f.id))]
         ELSE IF s.sfx = "" THEN (IF DefaultType(st.defs, s.c) = f.t THEN [st EXCEPT !.out = @ \o Show(ValueFor(f.t, f.id))] ELSE Unspec(st))
         ELSE Reject(st))
@@ -102,8 +105,8 @@ FnStmt(st, sc, s) ==
 
 Stmt(st, sc, s) ==
   LET d == Loc(st, sc) IN
-  IF s.k \in {"let", "print", "dimas", "dimsfx", "const", "redim"} /\ IsFn(st, s.b) THEN FnStmt(st, sc, s) ELSE
-  CASE s.k \in {"let", "print"} ->
+  IF s.k \in {"let", "print", "parg", "dimas", "dimsfx", "const", "redim"} /\ IsFn(st, s.b) THEN FnStmt(st, sc, s) ELSE
+  CASE s.k \in {"let", "print", "parg"} ->
          LET r == Resolve(st, sc, s.b, s.c, s.sfx) IN
          IF r.r = "reject" THEN Reject(st)
          ELSE IF r.r = "const" THEN
